@@ -544,7 +544,7 @@ Proof.
   intros Hinv (Bu & Bi & Ba). cbn [length] in Bu, Ba.
   assert (Bs : budget s evs).
   { unfold budget. destruct e; cbn [wte] in Bi; repeat apply conj; lia. }
-  destruct e as [c|m|pick|pick|sent|]; cbn [dstep wte] in *.
+  destruct e as [c|m|pick|pick|sent| |csent]; cbn [dstep wte] in *.
   - (* Arrive *)
     destruct (d_closed s); [cbn [fst snd]; auto using rel_refl|].
     destruct (N.of_nat (length (d_inbox s)) <? d_cap s); [|cbn [fst snd]; auto using rel_refl].
@@ -588,6 +588,12 @@ Proof.
     cbn [fst snd]. unfold set_closed. split; [exact F1|]. split.
     + unfold budget. cbn [d_tabs d_inbox d_bufs]. rewrite F3, F4. repeat apply conj; lia.
     + eapply rel_trans; [exact F2|]. apply rel_quiet; reflexivity.
+  - (* ConnClose *)
+    destruct (d_closed s); [cbn [fst snd]; auto using rel_refl|].
+    destruct (flush_rel csent s Hinv ltac:(lia)) as (F1 & F2 & F3 & F4 & F5 & F6 & F7 & F10).
+    cbn [fst snd]. unfold set_closed. split; [exact F1|]. split.
+    + unfold budget. cbn [d_tabs d_inbox d_bufs]. rewrite F3, F4. repeat apply conj; lia.
+    + rewrite <- (app_nil_r (snd (flush csent s))). eapply rel_trans; [exact F2|]. apply rel_quiet; reflexivity.
 Qed.
 
 Lemma run_main : forall evs s,
@@ -768,7 +774,7 @@ Proof.
   - cbn [drun fst snd arrived_chunks arrived_metas consumed_of metas_of returned_metas metaacks_of map app].
     rewrite !app_nil_r. auto.
   - rewrite drun_cons. cbn [fst snd].
-    destruct e as [c|m|pick|pick|sent|]; cbn [keeps_up] in Hk; cbn [dstep arrived_chunks arrived_metas].
+    destruct e as [c|m|pick|pick|sent| |csent]; cbn [keeps_up] in Hk; cbn [dstep arrived_chunks arrived_metas].
     + (* Arrive *)
       apply andb_true_iff in Hk as [Hk1 Hk]. apply andb_true_iff in Hk1 as [Hc Hlt].
       apply negb_true_iff in Hc. destruct (Hq Hc) as [-> ->]. rewrite Hc in *. rewrite Hlt.
@@ -837,6 +843,17 @@ Proof.
       specialize (IH (mkD (d_var s') (d_subs s') (d_cap s') (d_tabs s') (d_bufs s') (d_inbox s') (d_metabox s') true) q qm).
       cbn [d_closed d_cap d_subs d_inbox d_metabox] in IH. rewrite E5, E6, E8, E9 in IH. rewrite E5, E6, E8, E9.
       apply IH; [discriminate | exact Hk].
+    + (* ConnClose *)
+      destruct (d_closed s) eqn:Ec.
+      { cbn [fst snd app]. apply (IH s q qm); [rewrite Ec; discriminate | rewrite Ec; exact Hk]. }
+      destruct (flush_frame csent s) as (E2 & E3 & E4 & E5 & E6 & E7 & E8 & E9).
+      cbn [fst snd].
+      rewrite !consumed_of_app, !metas_of_app, !metaacks_of_app, E2, E3, E4.
+      cbn [app consumed_of metas_of metaacks_of]. unfold set_closed.
+      set (s' := fst (flush csent s)) in *.
+      specialize (IH (mkD (d_var s') (d_subs s') (d_cap s') (d_tabs s') (d_bufs s') (d_inbox s') (d_metabox s') true) q qm).
+      cbn [d_closed d_cap d_subs d_inbox d_metabox] in IH. rewrite E5, E6, E8, E9 in IH. rewrite E5, E6, E8, E9.
+      apply IH; [discriminate | exact Hk].
 Qed.
 
 Lemma once_in_order v fl cap pre evs :
@@ -891,6 +908,7 @@ Fixpoint all_sent (evs : list dev) : bool :=
   match evs with
   | [] => true
   | AckTick false :: _ => false
+  | ConnClose false :: _ => false
   | _ :: r => all_sent r
   end.
 
@@ -905,7 +923,7 @@ Proof.
   induction evs as [|e evs IH]; intros s H; [reflexivity|].
   rewrite drun_cons. cbn [snd]. rewrite sent_acks_of_app, acks_of_app.
   assert (Hs : sent_acks_of (snd (dstep s e)) = acks_of (snd (dstep s e)) /\ all_sent evs = true).
-  { destruct e as [c|m|pick|pick|sent|]; cbn [all_sent dstep] in *.
+  { destruct e as [c|m|pick|pick|sent| |csent]; cbn [all_sent dstep] in *.
     - split; [|exact H]. destruct (d_closed s); [reflexivity|]. destruct (_ <? _); reflexivity.
     - split; [|exact H]. destruct (d_closed s); [reflexivity|]. destruct (subscribed _ _ && _); reflexivity.
     - split; [|exact H]. destruct (d_closed s && (v_strict (d_var s) || negb pick)); [reflexivity|]. destruct (d_inbox s) as [|c rest]; [reflexivity|].
@@ -913,7 +931,8 @@ Proof.
     - split; [|exact H]. destruct (d_closed s && (v_strict (d_var s) || negb pick)); [reflexivity|]. destruct (d_metabox s); reflexivity.
     - destruct sent; [|discriminate]. split; [|exact H]. destruct (d_closed s); [reflexivity|]. apply flush_sent.
     - split; [|exact H]. destruct (d_closed s); [reflexivity|]. cbn [snd].
-      rewrite sent_acks_of_app, acks_of_app, flush_sent. reflexivity. }
+      rewrite sent_acks_of_app, acks_of_app, flush_sent. reflexivity.
+    - destruct csent; [|discriminate]. split; [|exact H]. destruct (d_closed s); [reflexivity|]. cbn [snd]. apply flush_sent. }
   destruct Hs as [-> Hs]. now rewrite IH.
 Qed.
 
@@ -925,7 +944,7 @@ Proof.
   induction evs as [|e evs IH]; intros s Hc; [cbn; auto|].
   rewrite drun_cons. cbn [fst snd]. rewrite acks_of_app, closereqs_of_app.
   assert (Hs : acks_of (snd (dstep s e)) = [] /\ closereqs_of (snd (dstep s e)) = 0 /\ d_closed (fst (dstep s e)) = true).
-  { destruct e as [c|m|pick|pick|sent|]; cbn [dstep]; rewrite ?Hc; cbn [fst snd acks_of closereqs_of]; auto.
+  { destruct e as [c|m|pick|pick|sent| |csent]; cbn [dstep]; rewrite ?Hc; cbn [fst snd acks_of closereqs_of]; auto.
     - destruct (true && _); [cbn; auto|]. destruct (d_inbox s) as [|c rest]; [cbn; auto|].
       destruct (do_read_shape s c rest) as (res & err & nu & ni & s' & -> & _ & _ & S3 & _).
       cbn [fst snd acks_of closereqs_of]. rewrite S3. auto.
@@ -933,14 +952,14 @@ Proof.
   destruct Hs as (-> & -> & Hs). destruct (IH _ Hs) as (-> & -> & ->). auto.
 Qed.
 
-Lemma open_stays : forall evs s, has_close evs = false -> d_closed s = false ->
+Lemma open_stays : forall evs s, has_closing evs = false -> d_closed s = false ->
   closereqs_of (snd (drun s evs)) = 0 /\ d_closed (fst (drun s evs)) = false.
 Proof.
   induction evs as [|e evs IH]; intros s Hh Hc; [cbn; auto|].
-  unfold has_close in Hh. cbn [existsb] in Hh. apply orb_false_iff in Hh as [He Hh].
+  unfold has_closing in Hh. cbn [existsb] in Hh. apply orb_false_iff in Hh as [He Hh].
   rewrite drun_cons. cbn [fst snd]. rewrite closereqs_of_app.
   assert (Hs : closereqs_of (snd (dstep s e)) = 0 /\ d_closed (fst (dstep s e)) = false).
-  { destruct e as [c|m|pick|pick|sent|]; try discriminate He; cbn [dstep]; rewrite ?Hc; cbn [fst snd closereqs_of]; auto.
+  { destruct e as [c|m|pick|pick|sent| |csent]; try discriminate He; cbn [dstep]; rewrite ?Hc; cbn [fst snd closereqs_of]; auto.
     - destruct (_ <? _); cbn; auto.
     - destruct (subscribed _ _ && _); cbn; auto.
     - cbn [andb]. destruct (d_inbox s) as [|c rest]; [cbn; auto|].
@@ -959,7 +978,7 @@ Lemma small_prefix pre a b : small_history pre (a ++ b) -> small_history pre a.
 Proof. intros [H1 H2]. rewrite app_length in H1. rewrite wte_app in H2. split; lia. Qed.
 
 Lemma close_order v fl cap pre evs post :
-  small_history pre (evs ++ Close :: post) -> has_close evs = false ->
+  small_history pre (evs ++ Close :: post) -> has_closing evs = false ->
   let s0 := dinit v fl cap pre in
   let o1 := snd (drun s0 evs) in
   exists mid tail,
@@ -989,14 +1008,15 @@ Proof.
     clear -o1. subst o1. generalize s0. induction evs as [|e evs IH]; intros s; [cbn; lia|].
     rewrite drun_cons. cbn [snd]. rewrite acks_of_app, app_length. cbn [length].
     assert (length (acks_of (snd (dstep s e))) <= 1)%nat.
-    { destruct e as [c|m|pick|pick|sent|]; cbn [dstep].
+    { destruct e as [c|m|pick|pick|sent| |csent]; cbn [dstep].
       - destruct (d_closed s); [cbn; lia|]. destruct (_ <? _); cbn; lia.
       - destruct (d_closed s); [cbn; lia|]. destruct (subscribed _ _ && _); cbn; lia.
       - destruct (d_closed s && (v_strict (d_var s) || negb pick)); [cbn; lia|]. destruct (d_inbox s) as [|c rest]; [cbn; lia|].
         destruct (do_read_shape s c rest) as (res & err & nu & ni & s' & -> & _). cbn; lia.
       - destruct (d_closed s && (v_strict (d_var s) || negb pick)); [cbn; lia|]. destruct (d_metabox s); cbn; lia.
       - destruct (d_closed s); [cbn; lia|]. flush_cases s; cbn; lia.
-      - destruct (d_closed s); [cbn; lia|]. cbn [snd]. rewrite acks_of_app, app_length. flush_cases s; cbn; lia. }
+      - destruct (d_closed s); [cbn; lia|]. cbn [snd]. rewrite acks_of_app, app_length. flush_cases s; cbn; lia.
+      - destruct (d_closed s); [cbn; lia|]. cbn [snd]. flush_cases s; cbn; lia. }
     specialize (IH (fst (dstep s e))). lia. }
   destruct (flush_rel true s1 Hinv1 Hb) as (F1 & F2 & F3 & F4 & F5 & F6 & F7 & F10).
   destruct (F7 eq_refl) as (F7a & F8 & F9).
@@ -1123,7 +1143,7 @@ Lemma step_tabs_frame s e :
   (exists pick c rest, e = Read pick /\ d_inbox s = c :: rest /\ dstep s e = do_read s c rest) \/
   (d_tabs (fst (dstep s e)) = d_tabs s /\ consumed_of (snd (dstep s e)) = []).
 Proof.
-  destruct e as [c|m|pick|pick|sent|]; cbn [dstep].
+  destruct e as [c|m|pick|pick|sent| |csent]; cbn [dstep].
   - right. destruct (d_closed s); [auto|]. destruct (_ <? _); auto.
   - right. destruct (d_closed s); [auto|]. destruct (subscribed _ _ && _); auto.
   - destruct (d_closed s && (v_strict (d_var s) || negb pick)); [right; auto|]. destruct (d_inbox s) as [|c rest]; [right; auto|].
@@ -1131,6 +1151,7 @@ Proof.
   - right. destruct (d_closed s && (v_strict (d_var s) || negb pick)); [auto|]. destruct (d_metabox s); auto.
   - right. destruct (d_closed s); [auto|]. flush_cases s; auto.
   - right. destruct (d_closed s); [auto|]. cbn [fst snd]. rewrite consumed_of_app. flush_cases s; auto.
+  - right. destruct (d_closed s); [auto|]. cbn [fst snd]. flush_cases s; auto.
 Qed.
 
 Definition covered (s : dstate) (c : chunk) : Prop :=
@@ -1261,7 +1282,7 @@ Qed.
    acknowledged and every alias issued so far announced - including what earlier failed sends
    had handed over in vain *)
 Lemma acked_after_flush v fl cap pre evs :
-  small_history pre (evs ++ [AckTick true]) -> v_keep v = true -> has_close evs = false ->
+  small_history pre (evs ++ [AckTick true]) -> v_keep v = true -> has_closing evs = false ->
   let r := drun (dinit v fl cap pre) (evs ++ [AckTick true]) in
   ack_results (sent_acks_of (snd r)) = read_results (snd r) /\
   ack_ups (sent_acks_of (snd r)) = minted_ups (snd r) /\
@@ -1285,8 +1306,22 @@ Proof.
                 metas_of (snd (dstep s e)) = [] \/
                 fst (dstep s e) = s /\ read_results (snd (dstep s e)) = [] /\ consumed_of (snd (dstep s e)) = [] /\
                 metas_of (snd (dstep s e)) = [(None, 4)]).
-  { destruct e as [c|m|pick|pick|sent|]; cbn [dstep]; rewrite ?Hc, ?Hs; cbn [andb orb fst snd]; auto. }
+  { destruct e as [c|m|pick|pick|sent| |csent]; cbn [dstep]; rewrite ?Hc, ?Hs; cbn [andb orb fst snd]; auto. }
   destruct Hst as [(-> & -> & -> & ->)|(-> & -> & -> & ->)]; destruct (IH s Hc Hs) as (-> & -> & I3); cbn [app returned_metas]; auto.
+Qed.
+
+Lemma drun_var : forall l s, d_var (fst (drun s l)) = d_var s.
+Proof.
+  induction l as [|e l IH]; intros s; [reflexivity|]. rewrite drun_cons. cbn [fst]. rewrite IH.
+  destruct e as [c|m|pick|pick|sent| |csent]; cbn [dstep].
+  - destruct (d_closed s); [reflexivity|]. destruct (_ <? _); reflexivity.
+  - destruct (d_closed s); [reflexivity|]. destruct (subscribed _ _ && _); reflexivity.
+  - destruct (d_closed s && _); [reflexivity|]. destruct (d_inbox s) as [|c rest]; [reflexivity|].
+    unfold do_read. destruct (resolve_up _ _); [destruct (resolve_groups _ _)|]; reflexivity.
+  - destruct (d_closed s && _); [reflexivity|]. destruct (d_metabox s); reflexivity.
+  - destruct (d_closed s); [reflexivity|]. flush_cases s; reflexivity.
+  - destruct (d_closed s); [reflexivity|]. cbn [fst]. flush_cases s; reflexivity.
+  - destruct (d_closed s); [reflexivity|]. cbn [fst]. flush_cases s; reflexivity.
 Qed.
 
 Lemma no_read_after_close v fl cap pre evs post :
@@ -1298,17 +1333,25 @@ Proof.
   intros Hs s1. apply closed_no_read.
   - unfold s1. rewrite drun_app. cbn [fst]. rewrite drun_cons. cbn [fst drun dstep].
     destruct (d_closed (fst (drun (dinit v fl cap pre) evs))) eqn:Ec; [exact Ec | reflexivity].
-  - assert (G : forall l s, d_var (fst (drun s l)) = d_var s).
-    { induction l as [|e l IH]; intros s; [reflexivity|]. rewrite drun_cons. cbn [fst]. rewrite IH.
-      destruct e as [c|m|pick|pick|sent|]; cbn [dstep].
-      - destruct (d_closed s); [reflexivity|]. destruct (_ <? _); reflexivity.
-      - destruct (d_closed s); [reflexivity|]. destruct (subscribed _ _ && _); reflexivity.
-      - destruct (d_closed s && _); [reflexivity|]. destruct (d_inbox s) as [|c rest]; [reflexivity|].
-        unfold do_read. destruct (resolve_up _ _); [destruct (resolve_groups _ _)|]; reflexivity.
-      - destruct (d_closed s && _); [reflexivity|]. destruct (d_metabox s); reflexivity.
-      - destruct (d_closed s); [reflexivity|]. flush_cases s; reflexivity.
-      - destruct (d_closed s); [reflexivity|]. cbn [fst]. flush_cases s; reflexivity. }
-    unfold s1. rewrite G. exact Hs.
+  - unfold s1. rewrite drun_var. exact Hs.
+Qed.
+
+(* the same when the CONNECTION is closed under the stream (no close request): whatever is still
+   queued, no read hands anything out afterwards, so nothing can stay unacknowledged *)
+Lemma no_read_after_conn_close v fl cap pre evs b post :
+  v_strict v = true ->
+  let s1 := fst (drun (dinit v fl cap pre) (evs ++ [ConnClose b])) in
+  read_results (snd (drun s1 post)) = [] /\ consumed_of (snd (drun s1 post)) = [] /\
+  returned_metas (metas_of (snd (drun s1 post))) = [] /\ acks_of (snd (drun s1 post)) = [] /\
+  closereqs_of (snd (drun s1 post)) = 0.
+Proof.
+  intros Hs s1.
+  assert (Hc : d_closed s1 = true).
+  { unfold s1. rewrite drun_app. cbn [fst]. rewrite drun_cons. cbn [fst drun dstep].
+    destruct (d_closed (fst (drun (dinit v fl cap pre) evs))) eqn:Ec; [exact Ec | reflexivity]. }
+  assert (Hv : v_strict (d_var s1) = true) by (unfold s1; rewrite drun_var; exact Hs).
+  destruct (closed_no_read post s1 Hc Hv) as (R1 & R2 & R3).
+  destruct (closed_stays post s1 Hc) as (K1 & K2 & _). auto.
 Qed.
 
 (* ---------- refutations for the FORMER code variants (computed witnesses) ---------- *)
